@@ -36,6 +36,8 @@ type World struct {
 	srcHash   string
 	customSorts map[string]string
 	specPkg   map[string]*types.Package
+	functypes map[string]*FuncContract // "pkg.Name" or type string
+	sites     map[string]*ContractFile
 }
 
 func shortPkg(path string) string {
@@ -61,7 +63,7 @@ func loadWorld(repo string, patterns []string, trustedDir string) (*World, error
 	w := &World{repo: repo, pkgs: map[string]*ssa.Package{}, tpkgs: map[string]*types.Package{},
 		contracts: map[string]*FuncContract{}, cfiles: map[string]*ContractFile{}, specs: map[string]*SpecFunc{},
 		lemmas: map[string]*Lemma{}, ghosts: map[string]GhostVar{}, guarded: map[string]string{}, immutable: map[string]bool{},
-		compRange: map[string][2]*big.Int{}, customSorts: map[string]string{}, specPkg: map[string]*types.Package{}}
+		compRange: map[string][2]*big.Int{}, customSorts: map[string]string{}, specPkg: map[string]*types.Package{}, functypes: map[string]*FuncContract{}}
 	cfg := &packages.Config{
 		Mode:       packages.LoadAllSyntax,
 		Dir:        repo,
@@ -130,11 +132,20 @@ func (w *World) addContractFile(cf *ContractFile) {
 			old.Globals = append(old.Globals, cf.Globals...)
 			old.Axioms = append(old.Axioms, cf.Axioms...)
 			old.Immutable = append(old.Immutable, cf.Immutable...)
+			old.Sites = append(old.Sites, cf.Sites...)
 		} else {
 			w.cfiles[cf.PkgPath] = cf
 		}
 	}
 	for _, f := range cf.Funcs {
+		if strings.HasPrefix(f.Key, "functype:") {
+			n := strings.TrimPrefix(f.Key, "functype:")
+			if strings.HasPrefix(n, "@") {
+				n = shortPkg(cf.PkgPath) + "." + n[1:]
+			}
+			w.functypes[n] = f
+			continue
+		}
 		switch f.Kind {
 		case "trusted":
 			w.contracts[f.Key] = f
@@ -342,4 +353,15 @@ func fullFieldName(t types.Type, field string) string {
 		return n.Obj().Pkg().Path() + "." + n.Obj().Name() + "." + field
 	}
 	return typeKey(t) + "." + field
+}
+
+// functypeContract: contract for calling a value of function type t.
+func (w *World) functypeContract(t types.Type) *FuncContract {
+	if fc, ok := w.functypes[typeKey(t)]; ok {
+		return fc
+	}
+	if fc, ok := w.functypes[typeKey(t.Underlying())]; ok {
+		return fc
+	}
+	return nil
 }
